@@ -35,16 +35,26 @@ def run(rep, tier, seed):
                 k = next((j for j, (x, y) in enumerate(zip(got, want_fields)) if x != y), min(len(got), len(want_fields)))
                 fails.append('%s parser: field #%d is %s, RFC layout gives %s (got %d fields, expected %d)' % (
                     stack, k, str(got[k])[:80] if k < len(got) else 'missing', str(want_fields[k])[:80] if k < len(want_fields) else 'nothing', len(got), len(want_fields)))
-        kinds = 'coap' if 'options' in st else 'sctp'
+        kinds = 'coap' if 'options' in st else ('udp-raw-port-%d' % st['dport'] if 'raw' in st else 'sctp')
         b.add('%s:%s' % (stack, kinds), pc.model_line(stack, bits), out, pc.parse_model, fails,
               dict(layer='parser', op='parse', stack=stack, bits=bits), key=(stack, bits))
         if 'options' in st:
             for d, l, v in st['options']:
                 rep.hist['coap-option-delta:%s' % ('0-12' if d < 13 else '13-268' if d < 269 else '269+')] = rep.hist.get('coap-option-delta:%s' % ('0-12' if d < 13 else '13-268' if d < 269 else '269+'), 0) + 1
                 rep.hist['coap-option-length:%s' % ('0' if l == 0 else '1-12' if l < 13 else '13-268' if l < 269 else '269+')] = rep.hist.get('coap-option-length:%s' % ('0' if l == 0 else '1-12' if l < 13 else '13-268' if l < 269 else '269+'), 0) + 1
-        else:
+        elif 'chunks' in st:
             for c in st['chunks']:
                 rep.hist['sctp-chunk-type:%d' % c['ctype']] = rep.hist.get('sctp-chunk-type:%d' % c['ctype'], 0) + 1
+    # large well-formed SCTP packets: > 1000 parameters in one chunk, jumbo DATA, SACK with many blocks
+    for kind in (['params', 'data', 'sack'] if tier == 'quick' else ['params', 'data', 'sack'] * 6):
+        pkt, st = P.sctp_large(rnd, kind)
+        for stack, wrap in (('SCTP', lambda x: x), ('IPv6', lambda x: P.ipv6(rnd, x, 132))):
+            full = wrap(pkt)
+            bits = b2s(full)
+            out = pc.observe(stack, bits)
+            want_fields, want_payload = ref_fields(stack, full, st)
+            fails = [] if out == ('OK', (tuple(want_fields), want_payload)) else ['%s parser on a large SCTP packet (%s, %d bytes): %s' % (stack, kind, len(full), str(out)[:120])]
+            b.add('%s:sctp-large-%s' % (stack, kind), pc.model_line(stack, bits), out, pc.parse_model, fails, dict(layer='parser', op='parse', stack=stack, bits=bits[:2000] + '...'), key=(stack, kind, len(bits), bits[:64]))
     b.run()
 
 
